@@ -483,6 +483,18 @@ class World:
             shutil.rmtree(self.root)
         os.makedirs(os.path.join(self.root, "inputs"))
         os.makedirs(os.path.join(self.root, "outputs"))
+        # the simulated user's home and temp directories live on the simulated disk too: a cache or history the
+        # code keeps under ~ or in the temp dir survives restarts there exactly as on a real machine (and a
+        # write to any *other* place outside the disk is refused, see SimFS.open)
+        os.makedirs(os.path.join(self.root, ".home"))
+        os.makedirs(os.path.join(self.root, ".tmp"))
+        self._old_env = {k: os.environ.get(k) for k in ("HOME", "TMPDIR", "XDG_CACHE_HOME", "XDG_CONFIG_HOME", "XDG_DATA_HOME", "XDG_STATE_HOME")}
+        os.environ["HOME"] = os.path.join(self.root, ".home")
+        os.environ["TMPDIR"] = os.path.join(self.root, ".tmp")
+        for k in ("XDG_CACHE_HOME", "XDG_CONFIG_HOME", "XDG_DATA_HOME", "XDG_STATE_HOME"):
+            os.environ.pop(k, None)
+        import tempfile as _tempfile
+        _tempfile.tempdir = None
         self.prev_cwd = os.getcwd()
         os.chdir(self.root)
         self.fd_baseline = self._fds()
@@ -559,6 +571,13 @@ class World:
             os.chdir(self.prev_cwd)
         except OSError:
             os.chdir("/")
+        for k, v in self._old_env.items():
+            if v is None:
+                os.environ.pop(k, None)
+            else:
+                os.environ[k] = v
+        import tempfile as _tempfile
+        _tempfile.tempdir = None
         shutil.rmtree(self.root, ignore_errors=True)
 
     def restart(self, entropy):
@@ -613,6 +632,8 @@ class World:
         if sys.path != p0["path"]:
             self.probe("process-state-reset:sys.path")
             sys.path[:] = p0["path"]
+        import tempfile as _tempfile
+        _tempfile.tempdir = None
 
     # -- seams for process-level services the code under test may start using
     def _atexit_register(self, func, *a, **kw):
